@@ -1703,6 +1703,8 @@ type RangeIterV struct {
 	Map     string
 	MT      *types.Map
 	Visited string // term of sort (Array K Bool): keys already yielded
+	Count   string // mathematical Int: number of keys yielded so far (contracts: visitedcount)
+	PH0     string // the map's presence heap when the range started (the count equals the cardinality at the end only if the loop left the map alone)
 	Ty      types.Type
 }
 
@@ -1720,8 +1722,11 @@ func (c *Ctx) rangeInit(s *State, fr *Frame, x *ssa.Range) {
 	m := c.val(s, x.X).(Scalar)
 	ks := c.mapKeySort(mt)
 	empty := fmt.Sprintf("((as const (Array %s Bool)) false)", ks)
-	fr.regs[x] = RangeIterV{Map: m.T, MT: mt, Visited: empty, Ty: x.Type()}
+	base0 := "M:" + typeName(mt)
+	ph0 := c.heapTerm(s, base0+"#present", fmt.Sprintf("(Array Ref (Array %s Bool))", ks))
+	fr.regs[x] = RangeIterV{Map: m.T, MT: mt, Visited: empty, Count: "0", PH0: ph0, Ty: x.Type()}
 	fr.src["visited"] = GhostSetV{Term: empty}
+	fr.src["visitedcount"] = Scalar{"0", SInt, types.Typ[types.Int]}
 }
 
 // rangeNext: the next key of a map range is an arbitrary present key that was not yielded before; the range ends
@@ -1746,6 +1751,15 @@ func (c *Ctx) rangeNext(s *State, fr *Frame, x *ssa.Next) []*State {
 	c.assume(s, fmt.Sprintf("(=> (not %s) (forall ((k %s)) (! (=> (select (select %s %s) k) (select %s k)) :pattern ((select (select %s %s) k)))))", okc, ks, ph, it.Map, visited, ph, it.Map))
 	nv := c.bind(s, "visited", c.visitedSort(mt), fmt.Sprintf("(ite %s (store %s %s true) %s)", okc, visited, k.T, visited))
 	it.Visited = nv
+	if it.Count != "" {
+		// every yield counts one key; when the range ends and the loop never touched the map, every key was yielded once
+		if ph == it.PH0 {
+			ch := c.heapTerm(s, base+"#card", "(Array Ref Int)")
+			c.assume(s, fmt.Sprintf("(=> (not %s) (= %s (select %s %s)))", okc, it.Count, ch, it.Map))
+		}
+		it.Count = c.bind(s, "visitedcount", SInt, fmt.Sprintf("(ite %s (+ %s 1) %s)", okc, it.Count, it.Count))
+		fr.src["visitedcount"] = Scalar{it.Count, SInt, types.Typ[types.Int]}
+	}
 	fr.regs[x.Iter] = it
 	fr.src["visited"] = GhostSetV{Term: nv}
 	c.typeRangeAssume(s, val)
